@@ -309,6 +309,7 @@ struct World
     sim::codecvt_ctl().reset();
     sim::codecvt_ctl().window = op.get("window", 0);
     sim::codecvt_ctl().error_at = op.get("ferr", -1);
+    sim::codecvt_ctl().stall_at = op.get("stall", -1);
     unsigned const which = static_cast<unsigned>(op.getu("f") % 4);
     std::string const n = "facet f=" + std::to_string(which);
     std::string how;
@@ -333,6 +334,8 @@ struct World
     SIM_CHECK(calls <= static_cast<long>(8 * (in_len + 2) + 16), "step-bound", n + ": " + std::to_string(calls) + " conversion calls for " + std::to_string(in_len) + " input units");
     if (sim::codecvt_ctl().error_fired)
       ctx.probe("facet_error");
+    if (sim::codecvt_ctl().stalled)
+      ctx.probe("facet_stall");
     if (sim::codecvt_ctl().partials != 0)
       ctx.probe("facet_partial");
     sim::codecvt_ctl().reset();
@@ -450,30 +453,34 @@ void warmup()
   (void)sim::sim_locale();
   // warm every call kind once, so that lazily initialised statics of libstdc++ (locale facets,
   // error categories) are not attributed to a later run's leak check
+  sim::Plan p;
+  p.property = prop::id;
+  for (unsigned f = 0; f < 12; ++f)
+    p.ops.push_back(sim::Op("stream").set("f", static_cast<long>(f)).set("len", 12).set("num", 1).set("vs", 1).set("cnt", 4));
+  for (unsigned f = 0; f < 4; ++f)
+    p.ops.push_back(sim::Op("facet").set("f", static_cast<long>(f)).set("len", 5).set("vs", 1));
+  for (unsigned f = 0; f < 7; ++f)
+    for (unsigned pp = 0; pp < 10; ++pp)
+      p.ops.push_back(sim::Op("fs").set("f", static_cast<long>(f)).set("p", static_cast<long>(pp)));
+  sim::detail::announce_warmup(p);
   sim::Ctx ctx;
   World w(ctx);
-  for (unsigned f = 0; f < 12; ++f)
+  for (sim::Op const &op : p.ops)
   {
-    sim::Op op("stream");
-    op.set("f", static_cast<long>(f)).set("len", 12).set("num", 1).set("vs", 1).set("cnt", 4);
     sim::fault::begin_op(op);
-    try { w.op_stream(op); } catch (...) {}
-  }
-  for (unsigned f = 0; f < 4; ++f)
-  {
-    sim::Op op("facet");
-    op.set("f", static_cast<long>(f)).set("len", 5).set("vs", 1);
-    sim::fault::begin_op(op);
-    try { w.op_facet(op); } catch (...) {}
-  }
-  for (unsigned f = 0; f < 7; ++f)
-    for (unsigned p = 0; p < 10; ++p)
+    try
     {
-      sim::Op op("fs");
-      op.set("f", static_cast<long>(f)).set("p", static_cast<long>(p));
-      sim::fault::begin_op(op);
-      try { w.op_fs(op); } catch (...) {}
+      if (op.name == "stream")
+        w.op_stream(op);
+      else if (op.name == "facet")
+        w.op_facet(op);
+      else
+        w.op_fs(op);
     }
+    catch (...)
+    {
+    }
+  }
   sim::fault::st().in_sut = false;
 }
 
@@ -517,9 +524,11 @@ void generate(sim::Rng &rng, sim::Plan &p, bool)
       op = sim::Op("facet").set("f", static_cast<long>(rng.below(4))).set("vs", vs).set("len", len);
       if (faulty)
       {
-        unsigned const f = static_cast<unsigned>(rng.below(6));
+        unsigned const f = static_cast<unsigned>(rng.below(7));
         if (f == 0)
           op.set("window", static_cast<long>(rng.range(1, 10)));
+        else if (f == 6)
+          op.set("stall", static_cast<long>(rng.below(40)));
         else if (f == 1)
           op.set("ferr", static_cast<long>(rng.below(40)));
         else if (f == 2)
